@@ -115,8 +115,8 @@ class _ReaderOpenFileBase(RawIOBase):
 
     @_raise_if_file_closed
     def read(self, size: int = -1) -> bytes:
-        if size == -1:
-            size = self._info.size - self._seek
+        if size < 0:
+            size = max(self._info.size - self._seek, 0)
         data = self._reader.get_data(self._info, self._seek, size)
         self._seek += len(data)
         return data
